@@ -132,7 +132,17 @@ fn c16_kernel_status_read_resets_changes() {
     core::mem::forget(r);
 }
 
-fn reader_add(replace: bool) {
+// @check props=C16 tier=quick
+// @desc UserDefinedDataReader::add_matched_publication on a reader with one matched writer and ANY consistent status counters, for BOTH kinds of announcement process_discovered_writers hands to it: a writer that is NOT yet matched (new key): the entry is appended, current_count == list length, current_count_change / total_count / total_count_change each grow by exactly 1; a writer that IS already matched and re-announced with changed data (QoS update; the caller skips only announcements identical to the stored one): the stored entry is replaced by the new data, the list length and all three counters are unchanged and current_count == list length - total_count counts each distinct match once and the change fields stay the difference since the last read (the defect this check found here, double counting on re-announcement, was repaired in /repo)
+// @bounds one matched publication before the step; the announced key equal to it or new (symbolic); counters: total_count in [1, 10^6), total_count_change in [0,total], current_count_change in (-10^6, 10^6)
+// @assume invariant (asserted again after the step): current_count == matched_publication_list.len()
+// @enc UserDefinedDataReader::add_matched_publication
+#[kani::proof]
+#[kani::unwind(3)]
+#[kani::stub(critical_section::acquire, super::support_cs::cs_acquire)]
+#[kani::stub(critical_section::release, super::support_cs::cs_release)]
+fn c16_kernel_reader_match() {
+    s1::link_drop_glue();
     let mut r = standalone_reader();
     let (g1, g2) = (s1::remote_writer_guid(1, 1), s1::remote_writer_guid(2, 1));
     let n: usize = 1;
@@ -140,56 +150,33 @@ fn reader_add(replace: bool) {
     r.subscription_matched_status = any_sub_status(n);
     let before = r.subscription_matched_status.clone();
     // the announcement processed by process_discovered_writers: a new writer, or (replace) a writer that is already
-    // matched whose announcement changed (e.g. ownership strength): `matched_publication_list.contains(&data)` is then
+    // matched whose announcement changed (ownership strength): `matched_publication_list.contains(&data)` is then
     // false and the caller goes on to add_matched_publication
+    let replace: bool = kani::any();
     let g = if replace { g1 } else { g2 };
     let mut data = s1::publication(g);
     data.ownership_strength.value = 5;
     let already = pub_listed(&r, g);
+    assert!(already == replace, "harness: the announced key is matched iff it is the re-announcement");
 
     r.add_matched_publication(data);
 
     let s = &r.subscription_matched_status;
     let len = r.reader.matched_publication_list.len();
+    let new = !already as i32;
     assert!(pub_listed(&r, g), "C16: the publication is matched");
+    assert!(pub_listed(&r, g1), "C16: the previously matched publication stays matched");
     assert!(len == n + !already as usize, "C16: a matched writer appears once in the matched set");
     assert!(s.current_count == len as i32, "C16: current_count equals the number of matched publications");
-    assert!(s.total_count == before.total_count + !already as i32, "C16: total_count counts each distinct match once");
-    assert!(s.total_count_change == before.total_count_change + !already as i32, "C16: total_count_change counts each distinct match once");
-    assert!(
-        s.current_count_change == before.current_count_change + (len as i32 - n as i32),
-        "C16: current_count_change equals the change of current_count"
-    );
-    kani::cover!(already == replace, "reached");
+    assert!(s.total_count == before.total_count + new, "C16: total_count counts each distinct match once");
+    assert!(s.total_count_change == before.total_count_change + new, "C16: total_count_change counts each distinct match once");
+    assert!(s.current_count_change == before.current_count_change + new, "C16: current_count_change equals the change of current_count");
+    if already {
+        assert!(r.reader.matched_publication_list[0].ownership_strength.value == 5, "C16: a re-announcement replaces the stored data of the matched writer");
+    }
+    kani::cover!(already, "re-announcement of the matched writer");
+    kani::cover!(!already && before.current_count_change < 0, "new writer after unread losses");
     core::mem::forget(r);
-}
-
-// @check props=C16 tier=quick known=KF-C16-4
-// @desc KNOWN FINDING: when an already matched remote writer is announced again with changed data (QoS update: process_discovered_writers skips only announcements IDENTICAL to the stored one), add_matched_publication replaces the entry but still increments total_count, total_count_change and current_count_change: total_count counts the same match twice and the change fields no longer equal the difference since the last read (the writer-side twin is inline in process_discovered_readers, discovery_methods.rs:1052-1077)
-// @bounds one matched publication, one re-announcement with a different ownership strength; counters any consistent values
-// @assume trigger: the key of the added publication is already in matched_publication_list
-// @enc UserDefinedDataReader::add_matched_publication
-#[kani::proof]
-#[kani::unwind(2)]
-#[kani::stub(critical_section::acquire, super::support_cs::cs_acquire)]
-#[kani::stub(critical_section::release, super::support_cs::cs_release)]
-fn c16_kernel_reader_match__known() {
-    s1::link_drop_glue();
-    reader_add(true);
-}
-
-// @check props=C16 tier=quick
-// @desc sibling of KF-C16-4 with the trigger negated: add_matched_publication of a writer that is NOT yet matched (1 other matched writer, any consistent counters): the entry is appended, current_count == list length, current_count_change / total_count / total_count_change each grow by exactly 1
-// @bounds 1 matched publication before the step; counters any consistent values
-// @assume negated trigger: the key of the added publication is not in matched_publication_list
-// @enc UserDefinedDataReader::add_matched_publication
-#[kani::proof]
-#[kani::unwind(2)]
-#[kani::stub(critical_section::acquire, super::support_cs::cs_acquire)]
-#[kani::stub(critical_section::release, super::support_cs::cs_release)]
-fn c16_kernel_reader_match__rest() {
-    s1::link_drop_glue();
-    reader_add(false);
 }
 
 // ---- participant level -----------------------------------------------------------------------------------------
